@@ -384,7 +384,7 @@ var def = pbt.Def[Case]{Name: "stalled-peer-does-not-block-others", Gen: gen, Ru
 
 func TestProp(t *testing.T) {
 	outerT = t
-	pbt.Check(t, run, def, 1500, 40000)
+	pbt.Check(t, run, def, 1500, 100000)
 }
 
 func TestReplay(t *testing.T) {
